@@ -2277,7 +2277,7 @@ class Interp:
             try:
                 return {"int": int, "float": float, "str": str, "abs": abs, "bool": bool, "min": min,
                         "max": max, "sum": sum, "round": round, "ord": ord, "chr": chr}[name](*args)
-            except (ValueError, TypeError) as e:
+            except (ValueError, TypeError, OverflowError) as e:
                 raise RaiseEx(type(e).__name__, node)
         if name == "int" and isinstance(args[0], Lin):
             return args[0]
